@@ -166,7 +166,7 @@ def main():
             if ': ' + c + ']' in o['name']: causes[c] += 1
     for c, n in causes.items(): rep.cover('some path is refused with %s' % c, n > 0)
     rep.cover('a first call refused after _initialize ran (memory check / word-count check) is reached', any('first' in o['name'] and 'DistinguisherError' in o['name'] for o in rep.obls))
-    rc, o, so, se = R.run_native('props.c16_native', ['bounded', str(seed), a.tier], timeout=1500)
+    rc, o, so, se = R.run_native('props.c16_native', ['bounded', str(seed), a.tier], timeout=3600)
     if o is None: rep.errors.append('native stand-in failed: %s %s' % (so[-400:], se[-900:]))
     else:
         rep.bounded.append(dict(function='real distinguishers: histories of accepted batches with rejected ones inserted; results compared with the accepted-only history', bound=o['bound'], evaluations=o['evaluations'], distinct=o['evaluations'], exhaustive=False, failures=o['failures']))
